@@ -412,16 +412,16 @@ def optimizer_check(tier, seed):
 
     def _alarm(*a):
         raise _Timeout()
-    signal.signal(signal.SIGALRM, _alarm)
+    signal.signal(signal.SIGPROF, _alarm)        # CPU time, not wall time
     for t in range(trials):
-        signal.alarm(60)
+        signal.setitimer(signal.ITIMER_PROF, 60)
         try:
             label, v, nt = run_one(env, rng, t)
         except _Timeout:
             label, v, nt = "trial %d" % t, {"key": "does-not-terminate", "trial": t, "seed": seed,
                                             "note": "an optimisation call on a finite-domain problem did not return within 60 s"}, True
         finally:
-            signal.alarm(0)
+            signal.setitimer(signal.ITIMER_PROF, 0)
         n += 1
         nontriv += 1 if nt else 0
         combos.add(tuple(label.split(" ")[0].split("/")[:3]))
